@@ -5,6 +5,7 @@ import (
 	"go/token"
 	"go/types"
 	"sort"
+	"strings"
 
 	"golang.org/x/tools/go/cfg"
 )
@@ -13,20 +14,30 @@ import (
 // (positive=false means the leaf states the negation of the atom).  ok=false: unknown leaf.
 type Atomizer func(leaf ast.Expr) (name string, positive bool, ok bool)
 
-// condLeaves collects the leaves of a condition (operands of &&, ||, !).
-func condLeaves(e ast.Expr, out *[]ast.Expr) {
+// condLeaves collects the leaves of a condition (operands of &&, ||, !).  A leaf the
+// atomizer does not know that names a single-assignment boolean local with a pure
+// definition is replaced by the leaves of that definition.
+func condLeaves(e ast.Expr, out *[]ast.Expr, at Atomizer) {
 	e = Unparen(e)
 	switch x := e.(type) {
 	case *ast.UnaryExpr:
 		if x.Op == token.NOT {
-			condLeaves(x.X, out)
+			condLeaves(x.X, out, at)
 			return
 		}
 	case *ast.BinaryExpr:
 		if x.Op == token.LAND || x.Op == token.LOR {
-			condLeaves(x.X, out)
-			condLeaves(x.Y, out)
+			condLeaves(x.X, out, at)
+			condLeaves(x.Y, out, at)
 			return
+		}
+	}
+	if at != nil {
+		if _, _, ok := at(e); !ok {
+			if d := PureBoolDef(e); d != nil {
+				condLeaves(d, out, at)
+				return
+			}
 		}
 	}
 	*out = append(*out, e)
@@ -57,6 +68,11 @@ func EvalCond(e ast.Expr, at Atomizer, val map[string]bool) bool {
 			return EvalCond(x.X, at, val) || EvalCond(x.Y, at, val)
 		}
 	}
+	if _, _, ok := at(e); !ok {
+		if d := PureBoolDef(e); d != nil {
+			return EvalCond(d, at, val)
+		}
+	}
 	name, pos := leafAtom(e, at)
 	return val[name] == pos
 }
@@ -64,7 +80,7 @@ func EvalCond(e ast.Expr, at Atomizer, val map[string]bool) bool {
 // CondAtoms lists the atoms of a condition.
 func CondAtoms(e ast.Expr, at Atomizer) []string {
 	var leaves []ast.Expr
-	condLeaves(e, &leaves)
+	condLeaves(e, &leaves, at)
 	set := map[string]bool{}
 	for _, l := range leaves {
 		n, _ := leafAtom(l, at)
@@ -229,3 +245,113 @@ func (c *CFG) LastAssign(b *cfg.Block, obj types.Object) (rhs ast.Expr, idx int)
 
 // BlockOf returns the block of a located node.
 func (c *CFG) BlockOf(n ast.Node) *cfg.Block { return c.LocOf(n).B }
+
+// theProg is the program most recently loaded (one per process); PureBoolDef needs it to
+// resolve an identifier without a function context.
+var theProg *Prog
+
+var pureDefMemo = map[types.Object]ast.Expr{}
+
+// PureBoolDef returns the defining expression of e when e names a boolean local variable
+// that is assigned exactly once in its function (closures included), by an expression
+// without calls (len/cap and conversions excepted) whose local operands are themselves
+// never reassigned.  Such a variable is a name for its definition, and conditions
+// mentioning it are read as if the definition stood there.  Fields read by the definition
+// are assumed unchanged between the definition and the test.
+func PureBoolDef(e ast.Expr) ast.Expr {
+	id, ok := Unparen(e).(*ast.Ident)
+	if !ok || theProg == nil {
+		return nil
+	}
+	pk := theProg.pkgOfNode(id)
+	if pk == nil {
+		return nil
+	}
+	v, ok := pk.TypesInfo.Uses[id].(*types.Var)
+	if !ok || v.IsField() || v.Pkg() == nil || v.Parent() == v.Pkg().Scope() {
+		return nil
+	}
+	if b, isB := v.Type().Underlying().(*types.Basic); !isB || b.Kind() != types.Bool {
+		return nil
+	}
+	if d, ok := pureDefMemo[v]; ok {
+		return d
+	}
+	pureDefMemo[v] = nil
+	f := theProg.EnclosingFuncAt(v.Pos())
+	if f == nil {
+		return nil
+	}
+	root := f.Root()
+	if v.Pos() < root.Body.Pos() {
+		return nil // parameter or named result
+	}
+	count := func(obj types.Object) (n int, rhs ast.Expr) {
+		var rec func(g *Func)
+		rec = func(g *Func) {
+			for _, r := range g.AssignedFrom(obj) {
+				n++
+				rhs = r
+			}
+			g.Walk(func(nd ast.Node) bool {
+				switch s := nd.(type) {
+				case *ast.IncDecStmt:
+					if IsObj(g.Info(), s.X, obj) {
+						n++
+						rhs = nil
+					}
+				case *ast.UnaryExpr:
+					if s.Op == token.AND && IsObj(g.Info(), s.X, obj) {
+						n++
+						rhs = nil
+					}
+				}
+				return true
+			})
+			for _, l := range g.Lits {
+				rec(l)
+			}
+		}
+		rec(root)
+		return
+	}
+	n, rhs := count(v)
+	if n != 1 || rhs == nil {
+		return nil
+	}
+	if tv, ok := pk.TypesInfo.Types[rhs]; !ok || tv.Type == nil {
+		return nil
+	} else if _, isTuple := tv.Type.(*types.Tuple); isTuple {
+		return nil
+	}
+	pure := true
+	ast.Inspect(rhs, func(nd ast.Node) bool {
+		switch x := nd.(type) {
+		case *ast.CallExpr:
+			name := CalleeName(pk.TypesInfo, x)
+			if name != "builtin.len" && name != "builtin.cap" && !strings.HasPrefix(name, "conv:") {
+				pure = false
+			}
+		case *ast.FuncLit:
+			pure = false
+		case *ast.UnaryExpr:
+			if x.Op == token.ARROW {
+				pure = false
+			}
+		case *ast.Ident:
+			if o, ok := pk.TypesInfo.Uses[x].(*types.Var); ok && !o.IsField() && o.Pkg() != nil && o.Parent() != o.Pkg().Scope() {
+				k, _ := count(o)
+				isParam := o.Pos() < root.Body.Pos()
+				if (isParam && k > 0) || (!isParam && k > 1) {
+					pure = false
+				}
+			}
+		}
+		return pure
+	})
+	if !pure {
+		return nil
+	}
+	pureDefMemo[v] = rhs
+	return rhs
+}
